@@ -2,6 +2,7 @@
 //! writes, per case, the request line for the Lean model driver, the implementation's
 //! canonical answer, and the verdict of the property predicate on the implementation.
 mod counter;
+mod globfact;
 mod grammar;
 mod props;
 mod proto;
